@@ -149,6 +149,25 @@ fn worker_main(tid: Tid, sched: Arc<Sched>, script: Vec<Value>, mut h: WorkerHan
                 }
                 None => r = "nohandle".into(),
             },
+            (WorkerHandle::Sync(v), "send_burst") => match v.first() {
+                // n blocking sends in a row at full speed: the thread leaves the step scheduler for the burst, so
+                // that a sender that really blocks on a full channel races with the loop as it does in production
+                Some(tx) => {
+                    Sched::unenroll();
+                    let cnt = op["n"].as_u64().unwrap_or(4);
+                    for i in 0..cnt {
+                        msg += 1;
+                        m = msg;
+                        ev("sending", json!({"t": tid, "m": m}));
+                        ev("call", json!({"t": tid, "op": "send", "n": 1000 + n * 100 + i as usize, "f": 0}));
+                        let rr = if tx.send(msg).is_err() { "disconnected" } else { "ok" };
+                        ev("ret", json!({"t": tid, "op": "send", "n": 1000 + n * 100 + i as usize, "r": rr, "m": m}));
+                    }
+                    m = 0;
+                    sched.enroll(tid);
+                }
+                None => r = "nohandle".into(),
+            },
             (WorkerHandle::Sync(v), "clone") => match v.first().cloned() {
                 Some(p) => v.push(p),
                 None => r = "nohandle".into(),
@@ -267,6 +286,7 @@ fn loop_main(sched: Arc<Sched>, scn: Value, tx: mpsc::Sender<Handles>, ctl: Arc<
     let script: Vec<Value> = scn["loop"].as_array().cloned().unwrap_or_default();
     let finals = scn["final_dispatches"].as_u64().unwrap_or(3);
     let mut k = 0usize;
+    let sched2 = sched.clone();
     let run_op = |el: &mut EventLoop<'static, ()>, op: &Value, k: usize| {
         let name = op.as_str().map(|s| s.to_string()).unwrap_or_else(|| op["op"].as_str().unwrap_or("").to_string());
         ev("lcall", json!({"op": name, "k": k, "f": op.get("f").cloned().unwrap_or(json!(0)),
@@ -349,6 +369,23 @@ fn loop_main(sched: Arc<Sched>, scn: Value, tx: mpsc::Sender<Handles>, ctl: Arc<
                     Ok(None) => extra = json!({"out": -1, "elapsed_us": t0.elapsed().as_micros() as u64}),
                     Err(_) => r = "err".into(),
                 }
+            }
+            "dispatch_burst" => {
+                // dispatch at full speed (outside the step scheduler) for a while: see "send_burst"
+                Sched::unenroll();
+                let ms = op["need"].as_u64().unwrap_or(20);
+                let t0 = Instant::now();
+                let mut i = 0;
+                while t0.elapsed() < Duration::from_millis(ms) {
+                    ev("lcall", json!({"op": "dispatch", "k": 100000 + k * 1000 + i, "f": 0, "need": 0}));
+                    let rr = match el.dispatch(Duration::from_micros(200), &mut ()) {
+                        Ok(()) => "ok".to_string(),
+                        Err(e) => format!("err:{}", e),
+                    };
+                    ev("lret", json!({"op": "dispatch", "k": 100000 + k * 1000 + i, "r": rr}));
+                    i += 1;
+                }
+                sched2.enroll(0);
             }
             "idle_wait" => {
                 // nothing is pending any more: a timed dispatch must block for its whole timeout
